@@ -194,7 +194,11 @@ func (rn *runner) checkModel(op *opSpec, trace string, evs []Event, states [][2]
 	rn.modelOps = ops
 	ans := r.Ask(line)
 	r.Count("model.op")
-	if !r.Check(prop, "trace", ops, ans, trace+" | single=1") {
+	batch := "-"
+	if strings.HasPrefix(line, "op addall ") || strings.HasPrefix(line, "op deferred ") {
+		batch = "1" // the real input must satisfy the theorems' input condition
+	}
+	if !r.Check(prop, "trace", ops, ans, trace+" | single=1 batch="+batch) {
 		rn.dead = true
 		return
 	}
